@@ -849,3 +849,107 @@ package anytype
 //@     invariant vals: forall k str :: has(r.val, k) ==> r.val[k] == old(ego.val[k])
 //@     invariant none-missing: forall j int :: 0 <= j && j < idx ==> has(ego.val, keys[j])
 //@     decreases m - idx
+
+// ---------------------------------------------------------------------------
+// Serialisation (C02, C16, C01): String() is derivable in the RFC 8259 grammar (JV)
+// ---------------------------------------------------------------------------
+
+//@ iface field.serialize [C02 C16 C01]
+//@   requires isField(self) && okVal(self)
+//@   assigns  nothing
+//@   panics_iff false
+//@   ensures  jv: JV(result, self) [C02 C16]
+//@   ensures  float-marked: isWFloat(self) ==> floatMarked(result) [C01]
+
+//@ func quote trusted [C02]
+//@   assigns  nothing
+//@   panics_iff false
+//@   ensures  result == jquote(str)
+
+//@ extern strconv.Itoa
+//@   assigns  nothing
+//@   panics_iff false
+//@   ensures  result == itoa(i)
+
+//@ extern strconv.FormatBool
+//@   assigns  nothing
+//@   panics_iff false
+//@   ensures  result == fmtBool(b)
+
+//@ extern strconv.FormatFloat
+//@   assigns  nothing
+//@   panics_iff false
+//@   ensures  fmt == 'e' ==> result == ffmtE(f)
+//@   ensures  fmt == 'f' ==> result == ffmtF(f)
+
+//@ extern strings.Contains
+//@   assigns  nothing
+//@   panics_iff false
+//@   ensures  substr == "." ==> result == hasDot(s)
+
+//@ extern math.Abs
+//@   assigns  nothing
+//@   panics_iff false
+//@   ensures  same(result, fabs(x))
+
+//@ extern math.Pow10
+//@   assigns  nothing
+//@   panics_iff false
+//@   ensures  same(result, pow10(n))
+
+//@ func (*atString).serialize implements=field.serialize
+//@ func (*atBool).serialize implements=field.serialize
+//@ func (*atInt).serialize implements=field.serialize
+//@ func (*atFloat).serialize implements=field.serialize
+//@ func (*atNil).serialize implements=field.serialize
+
+//@ func (*list).serialize implements=field.serialize
+//@   loop 1
+//@     assigns cell(result)
+//@     invariant range: 0 <= idx && idx <= len(ego.val)
+//@     invariant text: LS(deref(result), mem(ego.val), idx, len(ego.val))
+//@     decreases len(ego.val) - idx
+
+//@ func (*object).serialize implements=field.serialize
+//@   loop 1
+//@     assigns cell(result)
+//@     invariant range: 0 <= idx && idx <= ordn && ordn == len(ego.val) && i == idx
+//@     invariant text: OS(deref(result), mapid(ego.val), ord, idx, ordn)
+//@     decreases ordn - idx
+
+//@ func (*list).String [C02 C16 C01]
+//@   requires invL(ego)
+//@   assigns  nothing
+//@   panics_iff false
+//@   ensures  jv: JV(result, ego.ptr)
+
+//@ func (*object).String [C02 C16 C01]
+//@   requires invO(ego)
+//@   assigns  nothing
+//@   panics_iff false
+//@   ensures  jv: JV(result, ego.ptr)
+
+//@ extern strings.Repeat
+//@   assigns  nothing
+//@   panics_iff count < 0
+//@   ensures  true
+
+//@ extern encoding/json.Indent
+//@   assigns  everything
+//@   panics_iff false
+//@   ensures  true
+
+//@ extern (*bytes.Buffer).String
+//@   assigns  nothing
+//@   panics_iff false
+//@   ensures  true
+
+//@ func (*list).FormatString nowf [C16]
+//@   requires invL(ego)
+//@   assigns  everything
+//@   panics_iff indent < 0 || indent > 10
+
+//@ func (*object).FormatString nowf [C16]
+//@   requires invO(ego)
+//@   assigns  everything
+//@   panics_iff indent < 0 || indent > 10
